@@ -12,7 +12,12 @@
 (*           as documented per operator)                                    *)
 (*   negate: logical complement of the result                               *)
 (*   ws:     (Precedes/Succeeds) intervening whitespace is allowed          *)
-(*   limit:  (Before/After/Overlaps..) maximal distance; 0 = unlimited      *)
+(*   limit:  (Before/After) maximal distance between the two selections;    *)
+(*           (Embedded) "constrains the lookup range": the embedding        *)
+(*           selection may start at most `limit` before and end at most      *)
+(*           `limit` after the embedded one; 0 = unlimited.  The limit is     *)
+(*           part of the pairwise relation; it is only specified where the   *)
+(*           left-hand side is a single selection.                           *)
 EXTENDS StamBase
 
 B(r) == r[1]
@@ -43,7 +48,7 @@ RTest(o, a, b, text) ==
     CASE o.op = "Equals"    -> REquals(a, b)
       [] o.op = "Overlaps"  -> ROverlaps(a, b)
       [] o.op = "Embeds"    -> REmbeds(a, b)
-      [] o.op = "Embedded"  -> REmbedded(a, b)
+      [] o.op = "Embedded"  -> REmbedded(a, b) /\ (o.limit = 0 \/ (B(a) - B(b) <= o.limit /\ E(b) - E(a) <= o.limit))
       [] o.op = "Before"    -> RBefore(a, b) /\ WithinLimit(a, b, o.limit)
       [] o.op = "After"     -> RAfter(a, b) /\ WithinLimit(a, b, o.limit)
       [] o.op = "Precedes"  -> RPrecedes(a, b, o.ws, text)
